@@ -162,6 +162,37 @@ def pyval(v, objs):
     return v
 
 
+def sub_terms(t):
+    yield t
+    if t[0] in ('map', 'flat', 'concat'):
+        yield from sub_terms(t[2])
+    elif t[0] == 'subq':
+        yield from sub_terms(t[3])
+
+
+def sub_conds_of(c):
+    yield c
+    if c[0] in ('and', 'or'):
+        yield from sub_conds_of(c[1])
+        yield from sub_conds_of(c[2])
+    elif c[0] == 'not':
+        yield from sub_conds_of(c[1])
+    elif c[0] in ('forall', 'sub'):
+        yield from sub_conds_of(c[2])
+
+
+def sub_terms_of_cond(c):
+    for x in sub_conds_of(c):
+        if x[0] == 'cmp':
+            yield from sub_terms(x[2])
+            yield from sub_terms(x[3])
+        elif x[0] in ('in', 'contains'):
+            yield from sub_terms(x[1])
+            yield from sub_terms(x[2])
+        elif x[0] == 'truth':
+            yield from sub_terms(x[1])
+
+
 class Builder:
     def __init__(self, case, objs):
         self.case, self.objs = case, objs
@@ -223,6 +254,8 @@ class Builder:
             key = 'C' + json.dumps(c)
             if key in self.memo and key not in self.used:
                 self.used.add(key)
+                # the expression objects inside the shared operator are now part of this query too
+                self.used |= {json.dumps(t) for t in sub_terms_of_cond(c)} | {'C' + json.dumps(x) for x in sub_conds_of(c)}
                 return self.memo[key]
             r = self._cond(c, negated)
             if key not in self.memo:
@@ -273,6 +306,12 @@ class Builder:
     def query(self):
         case = self.case
         self.used = set()
+        if self.memo is not None and case.get('share_conds') and case.get('cond') is not None:
+            # an operator object of an earlier query that this query will reuse brings its expression objects along: they are
+            # not available for another position of this query
+            for x in sub_conds_of(case['cond']):
+                if x[0] in ('or', 'and') and 'C' + json.dumps(x) in self.memo:
+                    self.used |= {json.dumps(t) for t in sub_terms_of_cond(x)}
         sel = [self.term(t) for t in case['sel']]
         conds = []
         if case['cond'] is not None:
